@@ -127,6 +127,37 @@ pub proof fn lemma_push_keeps_unlinks_sound(fx: Seq<Fx>, e: Fx)
     }
 }
 
+/// callback ids of the requests of a batch that carry a callback, in request order
+pub open spec fn cb_ids<T: Types>(ws: Seq<WriteRequest<T>>) -> Seq<int>
+    decreases ws.len()
+{
+    if ws.len() == 0 { Seq::empty() } else {
+        let p = cb_ids::<T>(ws.drop_last());
+        match ws.last().callback { Some(c) => p.push(c.cb_id()), None => p }
+    }
+}
+/// callback ids of the Ack events of a trace, in order
+pub open spec fn ack_ids(fx: Seq<Fx>) -> Seq<int>
+    decreases fx.len()
+{
+    if fx.len() == 0 { Seq::empty() } else {
+        let p = ack_ids(fx.drop_last());
+        match fx.last() { Fx::Ack { cb, ok } => p.push(cb), _ => p }
+    }
+}
+pub proof fn lemma_cb_ids_step<T: Types>(ws: Seq<WriteRequest<T>>, k: int)
+    requires 0 <= k < ws.len()
+    ensures cb_ids::<T>(ws.take(k + 1)) == (match ws[k].callback { Some(c) => cb_ids::<T>(ws.take(k)).push(c.cb_id()), None => cb_ids::<T>(ws.take(k)) })
+{
+    assert(ws.take(k + 1).drop_last() =~= ws.take(k));
+}
+pub proof fn lemma_ack_step(fx: Seq<Fx>, n: int, e: Fx)
+    requires 0 <= n <= fx.len()
+    ensures ack_ids(fx.push(e).skip(n)) == (match e { Fx::Ack { cb, ok } => ack_ids(fx.skip(n)).push(cb), _ => ack_ids(fx.skip(n)) })
+{
+    assert(fx.push(e).skip(n) =~= fx.skip(n).push(e));
+    assert(fx.skip(n).push(e).drop_last() =~= fx.skip(n));
+}
 impl<T: Types> FlushWorker<T> {
     /// history invariant of the worker (C04, C07): the tracked list is never empty, every file with unsynced data is still tracked,
     /// every successful ack so far and every boundary update so far was sound
